@@ -52,40 +52,44 @@ Out(fn, gr, h, w) ==
     [] fn = "hillshade" -> HillR(gr, h, w, MUT)
 OutNaN(fn, v) == IF fn \in {"slope", "curvature"} THEN v[2] = 0 ELSE v[3] = 0
 
-\* ---------------------------------------------------------------- NaN ring, NaN propagation
-NaNRing ==
-  \A fn \in Fns : LET o == Out(fn, g, H, W) IN
-    \A r \in Rows, c \in Cols : ~Interior(H, W, r, c) => OutNaN(fn, o[r][c])
-
-NaNExactly ==
-  \A fn \in Fns : LET o == Out(fn, g, H, W) IN
-    \A r \in Rows, c \in Cols : Interior(H, W, r, c) =>
-       (OutNaN(fn, o[r][c]) <=> \E d \in ReadsOf(fn) : IsNaN(g[r + d[1]][c + d[2]]))
-
-\* ---------------------------------------------------------------- locality (action properties)
 At(fn, gr, h, w, r, c) ==
   CASE fn = "slope" -> SlopeAt(gr, h, w, r, c, CX, CY, MUT)
     [] fn = "aspect" -> AspectAt(gr, h, w, r, c, MUT)
     [] fn = "curvature" -> CurvAt(gr, h, w, r, c, CX, CY, MUT)
     [] fn = "hillshade" -> HillAt(gr, h, w, r, c, MUT)
+InteriorCells(h, w) == {rc \in (0..h-1) \X (0..w-1) : Interior(h, w, rc[1], rc[2])}
+
+\* ---------------------------------------------------------------- NaN ring, NaN propagation
+NaNRing ==
+  \A r \in Rows, c \in Cols : ~Interior(H, W, r, c) =>
+     \A fn \in Fns : OutNaN(fn, At(fn, g, H, W, r, c))
+
+NaNExactly ==
+  \A rc \in InteriorCells(H, W) : \A fn \in Fns :
+       (OutNaN(fn, At(fn, g, H, W, rc[1], rc[2])) <=> \E d \in ReadsOf(fn) : IsNaN(g[rc[1] + d[1]][rc[2] + d[2]]))
+
+\* ---------------------------------------------------------------- locality (action properties)
 Changed == {rc \in Rows \X Cols : g'[rc[1]][rc[2]] # g[rc[1]][rc[2]]}
 Near(p, q) == Abs(p[1] - q[1]) <= 1 /\ Abs(p[2] - q[2]) <= 1
-\* (contrapositive form: a cell that is not near / does not read any changed cell keeps its value)
+\* (contrapositive form: a cell that is not near / does not read any changed cell keeps its value; border cells
+\* are NaN before and after by NaNRing, so only interior cells need to be compared)
 LocalityA ==
   LET ch == Changed IN
-  \A q \in Rows \X Cols : (\A p \in ch : ~Near(p, q)) =>
+  \A q \in InteriorCells(H, W) : (\A p \in ch : ~Near(p, q)) =>
       \A fn \in Fns : At(fn, g', H, W, q[1], q[2]) = At(fn, g, H, W, q[1], q[2])
 ReadsOnlyA ==
   LET ch == Changed IN
-  \A q \in Rows \X Cols : \A fn \in Fns :
+  \A q \in InteriorCells(H, W) : \A fn \in Fns :
       (\A p \in ch : <<p[1] - q[1], p[2] - q[2]>> \notin ReadsOf(fn)) =>
           At(fn, g', H, W, q[1], q[2]) = At(fn, g, H, W, q[1], q[2])
 Locality == [][LocalityA]_g
 ReadsOnly == [][ReadsOnlyA]_g
 
 \* ---------------------------------------------------------------- offset invariance
+\* (border cells are NaN on both sides by NaNRing: the interior cells carry the content)
 OffsetInv ==
-  \A k \in KS : LET gk == AddK(g, H, W, k) IN \A fn \in Fns : Out(fn, gk, H, W) = Out(fn, g, H, W)
+  \A k \in KS : LET gk == AddK(g, H, W, k) IN
+     \A rc \in InteriorCells(H, W) : \A fn \in Fns : At(fn, gk, H, W, rc[1], rc[2]) = At(fn, g, H, W, rc[1], rc[2])
 
 \* ---------------------------------------------------------------- flat windows
 FlatAt(r, c) == ~IsNaN(g[r][c]) /\ \A d \in Off8 : g[r + d[1]][c + d[2]] = g[r][c]
@@ -126,13 +130,16 @@ ASSUME RampLaw
 
 \* ---------------------------------------------------------------- quarter turn
 \* RotS / RotSectors (StencilOps) are derived from the model: which way the aspect turns under np.rot90
+\* cell (i,j) of the turned raster (shape W x H) comes from cell (j, W-1-i); interior cells map to interior cells
 RotLaw ==
   CX = CY =>
   LET gr == Rot(g, H, W) IN
-  /\ SlopeR(gr, W, H, CX, CY, MUT) = Rot(SlopeR(g, H, W, CX, CY, MUT), H, W)
-  /\ CurvR(gr, W, H, CX, CY, MUT) = Rot(CurvR(g, H, W, CX, CY, MUT), H, W)
-  /\ LET a1 == AspectR(gr, W, H, MUT)  a0 == Rot(AspectR(g, H, W, MUT), H, W) IN
-     \A i \in 0..W-1, j \in 0..H-1 :
-        /\ a1[i][j] = TurnVec(a0[i][j], RotS)
-        /\ a0[i][j][3] = 2 => Sector16(a1[i][j][1], a1[i][j][2]) = (Sector16(a0[i][j][1], a0[i][j][2]) + RotSectors) % 16
+  \A ij \in InteriorCells(W, H) :
+    LET i == ij[1]  j == ij[2]
+        a1 == AspectAt(gr, W, H, i, j, MUT)
+        a0 == AspectAt(g, H, W, j, W-1-i, MUT)
+    IN /\ SlopeAt(gr, W, H, i, j, CX, CY, MUT) = SlopeAt(g, H, W, j, W-1-i, CX, CY, MUT)
+       /\ CurvAt(gr, W, H, i, j, CX, CY, MUT) = CurvAt(g, H, W, j, W-1-i, CX, CY, MUT)
+       /\ a1 = TurnVec(a0, RotS)
+       /\ a0[3] = 2 => Sector16(a1[1], a1[2]) = (Sector16(a0[1], a0[2]) + RotSectors) % 16
 =============================================================================
